@@ -143,3 +143,17 @@ def c10(ctx, t0):
         'liveness is restated as bounded progress: every issued request returns before the drain phase ends and one probe per request channel returns afterwards',
         'a violation is a proved block (dispatcher goroutine blocked at the same place in two dumps), never a timeout; the watchdog firing is inconclusive',
         'the Go scheduler and select choice are steered by load and delay failpoints, not controlled'], floors, t0)
+
+
+@plan('C11')
+def c11(ctx, t0):
+    res = []
+    if want(ctx, 'linearizability'):
+        res.append(ovl_stage(ctx, 'linearizability', 'TestVerifC11', T(ctx, 900, 5400)))
+    floors = {'overlapping_same_user_write_pairs': (counters(res, 'overlapping_same_user_write_pairs'), 200),
+              'histories_with_upgrade_after_later_update': (counters(res, 'histories_with_upgrade_after_later_update'), 1),
+              'upgrades_executed': (counters(res, 'upgrades_executed'), 20), 'crosstalk_requests': (counters(res, 'crosstalk_requests'), 1000)}
+    return finish(ctx, 'exploration', res, COMMON_ASSUME + [
+        'histories are recorded at the client boundary (call before invoking, return after the reply) with one monotonic clock',
+        'porcupine v1.3.0 decides linearizability of each recorded history against the sequential model in go/ovl/c11_test.go; a checker timeout is inconclusive',
+        'schedules are steered (few users, many clients, delay failpoints) not controlled; the evidence reports how often the targeted upgrade-after-update pattern was reached'], floors, t0)
